@@ -515,7 +515,7 @@ impl<'s, const M: usize> Exec<'s, M> {
         }
         if let Some((&na, nb)) = self.blocks.range(addr..).next() {
             if na < addr + size {
-                self.violate("C01", "overlap", "", format!("new block of {} bytes runs into a live block of {} bytes", size, nb.size));
+                self.violate("C01", "overlap", "", format!("new block of {} bytes at chunk offset {} runs into a live block of {} bytes at chunk offset {} (align {})", size, addr - cuser, nb.size, na.wrapping_sub(cuser), nb.align));
                 return false;
             }
         }
